@@ -79,6 +79,16 @@ def upload : Http → Up
         | some h => if h.isEmpty then 1 else parseRep h
       body := trimSpace (body.take bodyLimit) }
 
+/-- `X-Keep-Replicas-Stored` values of the property's answer alphabet: absent, "1" or "2". -/
+def AlphaHdr (h : Option (List Char)) : Prop := h = none ∨ h = some ['1'] ∨ h = some ['2']
+
+/-- The property's answer alphabet ("200 with replicas-stored 1..2, 200 without header, 400, 403,
+408, 429, 500, 502, 503, connection error, slow response"): a failed exchange, or a response with
+any status code and any body whose replicas header is absent, "1" or "2". -/
+def InAlphabet : Http → Prop
+  | .connErr => True
+  | .resp _ hdr _ _ => AlphaHdr hdr
+
 /-! ### putReplicas -/
 
 /-- the retry condition of `putReplicas` on `status.statusCode` -/
@@ -243,6 +253,81 @@ def putHB (hash : List Char) (len : Nat) : Entry :=
 /-- `md5hex` is the hex MD5 of the buffer (a parameter: no theorem depends on MD5 itself). -/
 def putB (md5hex : List Char) (len : Nat) : Entry := putHB md5hex len
 
+/-! ### What reaches a service: PutHR's stream, hash check and buffer; the transport -/
+
+/-- how the caller's `io.Reader` ends after delivering its bytes -/
+inductive StreamEnd
+  | eof
+  | err
+deriving Repr, DecidableEq
+
+/-- the caller's reader as PutHR sees it: the bytes it delivers, then EOF or an error -/
+structure Stream where
+  data : List Nat
+  fin : StreamEnd
+deriving Repr
+
+/-- how a request body ends after its bytes -/
+inductive BodyEnd
+  | eof
+  /-- `BadChecksum` from `HashCheckingReader` -/
+  | badChecksum
+  /-- the stream's own error, passed on by `CloseWithError` -/
+  | readErr
+deriving Repr, DecidableEq
+
+/-- `go func() { _, err := io.Copy(buf, HashCheckingReader{r, md5.New(), hash}); buf.CloseWithError(err) }()`:
+the asyncbuf holds every byte the stream delivered; each reader made by `buf.NewReader` gets all of
+them and then EOF only if the stream ended with EOF *and* the hex MD5 of the bytes is `hash`;
+otherwise it ends with BadChecksum resp. the stream's error. (`md5hex` is a parameter.) -/
+def bufferEnd (md5hex : List Nat → List Char) (hash : List Char) (st : Stream) : BodyEnd :=
+  match st.fin with
+  | .err => .readErr
+  | .eof => if md5hex st.data = hash then .eof else .badChecksum
+
+/-- One upload request as handed to the transport (`uploadToKeepServer`): hash in the URL,
+`req.ContentLength`, and the body (absent unless `expectedLength > 0`). -/
+structure Wire where
+  hash : List Char
+  contentLength : Int
+  body : Option (List Nat × BodyEnd)
+deriving Repr
+
+/-- What a service receives, if anything: a transport completes a request only if the body can be
+read to EOF and has the announced length (a request without body is complete). The scripted
+HTTPClient of the correspondence check implements exactly this rule. -/
+def Wire.delivered (w : Wire) : Option (List Nat) :=
+  match w.body with
+  | none => some []
+  | some (bs, .eof) => if (bs.length : Int) = w.contentLength then some bs else none
+  | some (_, _) => none
+
+def wireOf (p : PutCall) (body : List Nat × BodyEnd) : Wire :=
+  { hash := p.hash, contentLength := p.expectedLength, body := if p.hasBody then some body else none }
+
+/-- requests made by `PutHR(hash, r, dataBytes)`; `none` = refused as oversize -/
+def putHRWire (md5hex : List Nat → List Char) (hash : List Char) (st : Stream) (dataBytes : Int) :
+    Option Wire :=
+  match putHR hash dataBytes with
+  | .oversize => none
+  | .call p => some (wireOf p (st.data, bufferEnd md5hex hash st))
+
+/-- requests made by `PutHB(hash, buf)`: the buffer as it is, the caller's hash unchecked -/
+def putHBWire (hash : List Char) (buf : List Nat) : Wire :=
+  match putHB hash buf.length with
+  | .call p => wireOf p (buf, .eof)
+  | .oversize => { hash := hash, contentLength := buf.length, body := none }
+
+/-- requests made by `PutB(buf)` -/
+def putBWire (md5hex : List Nat → List Char) (buf : List Nat) : Wire := putHBWire (md5hex buf) buf
+
+/-- an honest store: 200 with the locator it issues iff the MD5 of what it received is the hash
+in the URL (422 otherwise); nothing (transport failure) if the request was not delivered -/
+def honestCode (md5hex : List Nat → List Char) (w : Wire) : Nat :=
+  match w.delivered with
+  | none => 0
+  | some b => if md5hex b = w.hash then 200 else 422
+
 /-! ### loadKeepServers -/
 
 structure Svc where
@@ -287,5 +372,23 @@ def loadStep (r : Roots) (s : Svc) : Roots :=
 /-- `loadKeepServers` on a client whose `foundNonDiskSvc` is `nd0` -/
 def load (nd0 : Bool) (l : List Svc) : Roots :=
   l.foldl loadStep { listed := [], locals := [], writable := [], gateways := [], rps := 1, nonDisk := nd0 }
+
+/-! ### discoverServices -/
+
+/-- `fmt.Sprintf("00000-bi6l4-%015d", i)` -/
+def uriUuid (i : Nat) : List Char :=
+  let ds := (toString i).toList
+  "00000-bi6l4-".toList ++ List.replicate (15 - ds.length) '0' ++ ds
+
+/-- `discoverServices` with `kc.Arvados.KeepServiceURIs` set (ARVADOS_KEEP_SERVICES): every URI is
+a local, writable and gateway root under a made-up uuid; the services count as non-disk, so
+`replicasPerService` is 0. -/
+def discoverURIs (uris : List (List Char)) : Roots :=
+  let m : RootMap := uris.mapIdx fun i u => (uriUuid i, u)
+  { listed := [], locals := m, writable := m, gateways := m, rps := 0, nonDisk := true }
+
+/-- `discoverServices` otherwise: the "accessible" keep_services list of the API server (through the
+per-host cache) goes to `loadKeepServers` of a fresh client. -/
+def discoverAPI (l : List Svc) : Roots := load false l
 
 end ArvVerif.C11
